@@ -1,4 +1,5 @@
 import BpModel.GrpcCall
+import BpProofs.GrpcCall
 /-
   C11, call protocol: every schedule of the three tasks ends in the same state (diamond property of `step`,
   hence uniqueness of the quiescent state), and the canonical schedule `canon` is one of them.
@@ -1120,5 +1121,262 @@ theorem canon_quiet (strict : Bool) (c : Cfg Req Resp) (hg : good c.cl.reqDone c
   | M => exact hmq
   | S => simp only [step, sStep, mRunC, hfr.1, hs2]
   | V => exact vStep_congr _ c2 hfr.2.1 hfr.2.2.1 hfr.2.2.2 hv2
+
+/-! ### every schedule ends like the canonical one -/
+
+theorem inv_initV {α : Type} (strict : Bool) (p : ClientProg Req α) (v : VProg Req Resp)
+    (hg : good false p.ops = true) (hs : strict = true → p.ops.all (fun o => !isSpawn o) = true) :
+    Inv strict (initV p v) :=
+  ⟨by simp [initV], Or.inl ⟨rfl, hg⟩, fun h => ⟨rfl, hs h⟩⟩
+
+theorem inv_good (strict : Bool) (c : Cfg Req Resp) (hI : Inv strict c) : good c.cl.reqDone c.m.ops = true := by
+  rcases hI.shape with ⟨_, h⟩ | ⟨h, _⟩
+  · exact h
+  · exact good_of_recvOnly _ _ h
+
+/-- **all schedules end like the canonical one** (from a configuration of the invariant) -/
+theorem run_eq_canon (strict : Bool) (c : Cfg Req Resp) (hI : Inv strict c) (σ : List Task)
+    (hq : Quiet strict (run strict σ c)) : run strict σ c = canon strict c := by
+  obtain ⟨σc, hσc⟩ := canon_reach strict c
+  have hqc : Quiet strict (run strict σc c) := by rw [hσc]; exact canon_quiet strict c (inv_good strict c hI)
+  rw [← hσc]
+  exact run_unique strict σ c σc hI hq hqc
+
+/-! ### the check "outgoing stream was ended" when the `async with` block is left -/
+
+/-- the flags say "ended" whenever END_STREAM has gone out; the server saw the end only if it has -/
+structure Inv2 (c : Cfg Req Resp) : Prop where
+  endOk : c.up.ended = true → endedOk c.cl = true
+  sawEnd : c.v.sawEnd = true → c.up.ended = true
+
+theorem sendEff_ended_ok (cl cl' : Client) (e e' : Bool) (o : SOp Req) (push : List Req)
+    (h : sendEff cl e o = .ok (cl', push, e')) (h1 : e = true → endedOk cl = true) :
+    (e' = true → endedOk cl' = true) ∧ (e = true → e' = true) := by
+  cases o <;> simp only [sendEff] at h <;> (repeat' split at h) <;> simp_all [endedOk] <;>
+    (obtain ⟨h1, h2, h3⟩ := h; subst h1; subst h3; simp_all)
+
+theorem inv2_sStep (c c' : Cfg Req Resp) (hJ : Inv2 c) (hs : sStep c = some c') : Inv2 c' := by
+  obtain ⟨cl, ⟨um, ue⟩, d, s, m, v⟩ := c
+  obtain ⟨o, rest, rfl, hcase⟩ := sStep_some _ _ _ _ _ _ _ _ hs
+  rcases hcase with ⟨cl', push, e', he, rfl⟩ | ⟨x, he, rfl⟩
+  · have := sendEff_ended_ok _ _ _ _ _ _ he hJ.endOk
+    exact ⟨this.1, fun h => this.2 (hJ.sawEnd h)⟩
+  · exact ⟨hJ.endOk, hJ.sawEnd⟩
+
+theorem inv2_vStep (c c' : Cfg Req Resp) (hJ : Inv2 c) (hv : vStep c = some c') : Inv2 c' := by
+  obtain ⟨h1, h2, h3, h4, h5, h6, h7, h8, h9⟩ := vStep_keeps c c' hv
+  refine ⟨by rw [h1, h8]; exact hJ.endOk, ?_⟩
+  intro h; rw [h8]
+  rcases h9 h with h | h
+  · exact hJ.sawEnd h
+  · exact h
+
+theorem inv2_mStep (strict : Bool) (c c' : Cfg Req Resp) (hJ : Inv2 c) (hm : mStep strict c = some c') : Inv2 c' := by
+  cases ho : c.m.ops with
+  | nil => simp [mStep, ho] at hm
+  | cons op rest =>
+    cases hop : recvOnly op with
+    | true =>
+      obtain ⟨h1, h2, h3, h4, h5, h6⟩ := mStep_recvOnly strict c c' op rest ho hop hm
+      exact ⟨by rw [h2, h3]; exact hJ.endOk, by rw [h3, h4]; exact hJ.sawEnd⟩
+    | false =>
+      obtain ⟨cl, ⟨um, ue⟩, d, s, ⟨ops, resp, yielded, result⟩, v⟩ := c
+      simp only at ho; subst ho
+      cases op with
+      | sendRequest =>
+        cases hr : cl.reqDone <;> simp [mStep, sendRequest, hr, failM] at hm <;> subst hm
+        · exact ⟨by have := hJ.endOk; simpa [endedOk] using this, hJ.sawEnd⟩
+        · exact ⟨hJ.endOk, hJ.sawEnd⟩
+      | send o =>
+        cases he : sendEff cl ue o with
+        | error x => simp [mStep, sendOp, he, failM] at hm; subst hm; exact ⟨hJ.endOk, hJ.sawEnd⟩
+        | ok r =>
+          obtain ⟨cl', push, e'⟩ := r
+          simp [mStep, sendOp, he] at hm; subst hm
+          have := sendEff_ended_ok _ _ _ _ _ _ he hJ.endOk
+          exact ⟨this.1, fun h => this.2 (hJ.sawEnd h)⟩
+      | spawn x => simp [mStep] at hm; subst hm; exact ⟨hJ.endOk, hJ.sawEnd⟩
+      | assertResponse => simp [recvOnly] at hop
+      | returnResponse => simp [recvOnly] at hop
+      | recvMessage => simp [recvOnly] at hop
+      | iterYield => simp [recvOnly] at hop
+      | exitCtx => simp [recvOnly] at hop
+
+theorem inv2_run (strict : Bool) (σ : List Task) : ∀ c : Cfg Req Resp, Inv2 c → Inv2 (run strict σ c) := by
+  induction σ with
+  | nil => intro c h; exact h
+  | cons t ts ih =>
+    intro c h
+    simp only [run]
+    cases hs : step strict t c with
+    | none => exact ih c h
+    | some c' =>
+      refine ih c' ?_
+      cases t with
+      | M => exact inv2_mStep strict c c' h hs
+      | S => exact inv2_sStep c c' h hs
+      | V => exact inv2_vStep c c' h hs
+
+/-- the main task is about to leave the `async with` block and the check would fail -/
+def raceAt (c : Cfg Req Resp) : Prop :=
+  c.m.ops.head? = some .exitCtx ∧ exitCheck true c.cl c.down ≠ exitCheck false c.cl c.down
+
+theorem mStep_strict_eq (c : Cfg Req Resp) (h : ¬ raceAt c) : mStep true c = mStep false c := by
+  obtain ⟨cl, up, d, s, ⟨ops, resp, yielded, result⟩, v⟩ := c
+  cases ops with
+  | nil => rfl
+  | cons op rest =>
+    cases op with
+    | exitCtx =>
+      have : exitCheck true cl d = exitCheck false cl d := by
+        by_cases he : exitCheck true cl d = exitCheck false cl d
+        · exact he
+        · exact absurd ⟨rfl, he⟩ h
+      simp [mStep, this]
+    | _ => rfl
+
+theorem exitCheck_differ (cl : Client) (d : Down Resp) (h : exitCheck true cl d ≠ exitCheck false cl d) :
+    cl.reqDone = true ∧ d.fin.isSome = true ∧ endedOk cl = false := by
+  obtain ⟨dm, dh, df⟩ := d
+  cases hr : cl.reqDone <;> cases df <;> simp [exitCheck, hr] at h ⊢
+  rename_i f
+  cases he : endedOk cl
+  · rfl
+  · cases f <;> cases dh <;> simp [he] at h
+
+theorem mStep_isNone_strict (c : Cfg Req Resp) : mStep true c = none ↔ mStep false c = none := by
+  obtain ⟨cl, up, d, s, ⟨ops, resp, yielded, result⟩, v⟩ := c
+  cases ops with
+  | nil => simp [mStep]
+  | cons op rest =>
+    cases op with
+    | exitCtx =>
+      obtain ⟨dm, dh, df⟩ := d
+      cases hr : cl.reqDone <;> cases df <;> simp [mStep, exitCheck, hr]
+      rename_i f
+      cases f <;> cases dh <;> cases endedOk cl <;> simp
+    | _ => simp [mStep]
+
+theorem quiet_strict (c : Cfg Req Resp) : Quiet true c ↔ Quiet false c := by
+  constructor
+  · intro h t
+    cases t with
+    | M => exact (mStep_isNone_strict c).mp (h .M)
+    | S => exact h .S
+    | V => exact h .V
+  · intro h t
+    cases t with
+    | M => exact (mStep_isNone_strict c).mpr (h .M)
+    | S => exact h .S
+    | V => exact h .V
+
+theorem mRun_v (strict : Bool) (ops : List (COp Req)) : ∀ c : Cfg Req Resp, (mRun strict ops c).v = c.v := by
+  induction ops with
+  | nil => intro c; rfl
+  | cons op rest ih =>
+    intro c
+    cases op with
+    | sendRequest => simp only [mRun]; cases sendRequest c.cl <;> simp [failM, ih]
+    | send o => simp only [mRun]; cases sendOp c.cl c.up o <;> simp [failM, ih]
+    | spawn z => simp only [mRun]; exact ih _
+    | recvMessage =>
+      simp only [mRun]
+      cases c.cl.reqDone <;> simp [failM]
+      cases downRecv c.down with
+      | none => rfl
+      | some a => cases a <;> simp [failM, ih]
+    | iterYield =>
+      simp only [mRun]
+      cases c.cl.reqDone <;> simp [failM]
+      cases downRecv ({ c.down with msgs := [] } : Down Resp) with
+      | none => rfl
+      | some a => cases a <;> simp [failM, ih]
+    | exitCtx =>
+      simp only [mRun]
+      cases exitCheck strict c.cl c.down with
+      | none => rfl
+      | some a => cases a <;> simp [failM, ih]
+    | assertResponse => simp only [mRun]; cases c.m.resp.isSome <;> simp [failM, ih]
+    | returnResponse => simp [mRun]
+
+/-- once the server task has halted the canonical schedule leaves its state as it is -/
+theorem canon_v_halt (strict : Bool) (c : Cfg Req Resp) (h : c.v.prog.isHalt = true) : (canon strict c).v = c.v := by
+  unfold canon mRunC
+  rw [mRun_v]
+  have h1 : (sRun (mRun strict c.m.ops c)).v = c.v := by simp [sRun, mRun_v]
+  generalize sRun (mRun strict c.m.ops c) = c1 at h1 ⊢
+  obtain ⟨cl, up, d, s, m, v1⟩ := c1
+  simp only at h1; subst h1
+  obtain ⟨cl0, up0, d0, s0, m0, ⟨p, calls, hIn, se⟩⟩ := c
+  cases p <;> simp [VProg.isHalt] at h
+  unfold vRunG; cases cl.reqDone <;> simp [vRun]
+
+/-- under the canonical schedule (taken without the check) the server task saw the end of the request stream, or
+    never finished: then no schedule lets the main task leave before the stream is ended -/
+def drained (c0 : Cfg Req Resp) : Bool := (canon false c0).v.sawEnd || !(canon false c0).v.prog.isHalt
+
+theorem canon_of_reached (c0 : Cfg Req Resp) (hI : Inv false c0) (σ : List Task) :
+    canon false (run false σ c0) = canon false c0 := by
+  obtain ⟨σc, hσc⟩ := canon_reach false (run false σ c0)
+  have hI' := inv_run false σ c0 hI
+  have hq : Quiet false (run false (σ ++ σc) c0) := by
+    rw [run_append, hσc]; exact canon_quiet false _ (inv_good false _ hI')
+  have := run_eq_canon false c0 hI (σ ++ σc) hq
+  rw [run_append, hσc] at this; exact this
+
+theorem no_race (c0 : Cfg Req Resp) (hI : Inv false c0) (hJ : Inv2 c0) (hd : drained c0 = true) (σ : List Task) :
+    ¬ raceAt (run false σ c0) := by
+  intro ⟨_, hne⟩
+  have hI' := inv_run false σ c0 hI
+  have hJ' := inv2_run false σ c0 hJ
+  obtain ⟨_, hfin, hend⟩ := exitCheck_differ _ _ hne
+  have hhalt := hI'.finHalt hfin
+  have hue : (run false σ c0).up.ended = false := by
+    cases h : (run false σ c0).up.ended with
+    | false => rfl
+    | true => rw [hJ'.endOk h] at hend; cases hend
+  have hse : (run false σ c0).v.sawEnd = false := by
+    cases h : (run false σ c0).v.sawEnd with
+    | false => rfl
+    | true => rw [hJ'.sawEnd h] at hue; cases hue
+  have hv := canon_v_halt false _ hhalt
+  rw [canon_of_reached c0 hI σ] at hv
+  simp only [drained, hv, hse, hhalt] at hd
+  cases hd
+
+theorem run_strict_of_no_race (σ : List Task) :
+    ∀ c : Cfg Req Resp, (∀ σ', ¬ raceAt (run false σ' c)) → run true σ c = run false σ c := by
+  induction σ with
+  | nil => intro c _; rfl
+  | cons t ts ih =>
+    intro c h
+    have hst : step true t c = step false t c := by
+      cases t with
+      | M => exact mStep_strict_eq c (h [])
+      | S => rfl
+      | V => rfl
+    simp only [run, hst]
+    cases hs : step false t c with
+    | none => exact ih c h
+    | some c' =>
+      refine ih c' ?_
+      intro σ'
+      have := h (t :: σ')
+      simpa only [run, hs] using this
+
+/-- **all schedules of the code as it is (with the check) end like the canonical one**, when the guard holds -/
+theorem run_strict_eq_canon (c0 : Cfg Req Resp) (hI : Inv false c0) (hJ : Inv2 c0) (hd : drained c0 = true)
+    (σ : List Task) (hq : Quiet true (run true σ c0)) : run true σ c0 = canon true c0 := by
+  have key : ∀ σ, Quiet true (run true σ c0) → run true σ c0 = canon false c0 := by
+    intro σ hq
+    have e := run_strict_of_no_race σ c0 (no_race c0 hI hJ hd)
+    rw [e] at hq ⊢
+    exact run_eq_canon false c0 hI σ ((quiet_strict _).mp hq)
+  obtain ⟨σc, hσc⟩ := canon_reach true c0
+  have hqc : Quiet true (run true σc c0) := by rw [hσc]; exact canon_quiet true c0 (inv_good false c0 hI)
+  rw [key σ hq, ← hσc, key σc hqc]
+
+theorem inv2_initV {α : Type} (p : ClientProg Req α) (v : VProg Req Resp) : Inv2 (initV p v) :=
+  ⟨by simp [initV], by simp [initV]⟩
 
 end Bp.GrpcCall
